@@ -212,7 +212,8 @@ def diag(ctx, event_line):
                 shutil.copy(os.path.join(vlib.SPEC, f), d)
         open(os.path.join(d, "event.ndjson"), "w").write(event_line.strip() + "\n")
         res, outs = "", {}
-        mods = ["DiagTopo"] + (["DiagXml"] if '"e":"xml_import"' in event_line else [])
+        # an imported topology is only compared with its source (DiagXml); a loaded one is judged by WellFormed (DiagTopo)
+        mods = ["DiagXml"] if '"e":"xml_import"' in event_line else ["DiagTopo"]
         for mod in mods + ["DiagSnapshot"]:
             if mod == "DiagSnapshot" and '"SetInclusions"' not in res:
                 continue
@@ -229,7 +230,7 @@ def diag(ctx, event_line):
             elif mod == "DiagXml":
                 m2 = re.search(r'<<"EQUIVDIFF", (<<.*?>>)>>', flat)
                 if m2:
-                    res += " equiv_diff(object fields, object types, top-level fields)=" + m2.group(1)
+                    res += "equiv_diff(object fields, object types, top-level fields)=" + m2.group(1)
                 m3 = re.search(r'<<"MEMCCSONLY", (TRUE|FALSE)>>', flat)
                 if m3:
                     res += " only_moved_memory_child_complete_cpuset=" + m3.group(1)
@@ -445,13 +446,14 @@ def run(ctx, replay=None):
     check_infra(trf)
     shutil.rmtree(ctx.path("scr"), ignore_errors=True)
     os.makedirs(ctx.path("scr"), exist_ok=True)
-    nshards = max(vlib.NCPU, int(os.path.getsize(trf) / 64e6) + 1)       # a shard is read into memory as a whole
+    # a shard is read into memory as a whole, and after a rejection its remainder is read again: keep shards small
+    nshards = max(vlib.NCPU, int(os.path.getsize(trf) / 16e6) + 1)
     rejs = validate(ctx, trf, nshards=nshards, max_rej=200)
     os.unlink(trf)
     # every rejected behaviour is run again alone in a fresh recorder (handle_rejections demands that); do these runs in parallel
     import concurrent.futures as cf
     todo = sorted({behs[r["beh"]] for r in rejs if r.get("beh") is not None and 0 <= r["beh"] < len(behs)})
-    with cf.ThreadPoolExecutor(max_workers=max(1, vlib.NCPU // 2)) as ex:
+    with cf.ThreadPoolExecutor(max_workers=vlib.NCPU) as ex:
         confirmed = dict(zip(todo, ex.map(replay_fn, todo)))
     ctx.handle_rejections(rejs, behs, lambda text: confirmed[text] if text in confirmed else replay_fn(text))
     if not os.environ.get("HWV_KEEP"):          # 170k hard links and directories: rm is much faster than shutil.rmtree
